@@ -169,3 +169,51 @@ def adj1(ctx, lib, rid="ADJ-1"):
                         ctx.violation(rid, (b.path, "adjacency comparison"), "positions are compared with %s instead of equality to first+1" % o[1], b.loc(t.get("line")))
     if found == 0:
         ctx.anchor_lost(rid, "position function (char -> usize) or adjacency predicate ((char, char) -> bool) used by the class printer")
+
+
+def tok1(ctx, lib, rid="TOK-1"):
+    """TOK-1: the bracket-class printer emits its members one by one (or as first-last): none of its string constants is a shorthand or property token (\\d, \\w, \\s,
+    \\p{..}, [:digit:] ...).  Such a token stands for a whole Unicode class (\\d = every decimal digit of every script), not for the members that are in the set."""
+    printers = find_class_printer(lib)
+    if not ctx.floor(rid, "bracket-class printers", len(printers), 1):
+        return
+    for fb in printers:
+        bodies = [fb] + [c for c in lib.bodies if c.kind == "closure" and c.parent == fb.path]
+        bad = []
+        nconst = 0
+
+        def scan(v, b, line):
+            nonlocal nconst
+            if isinstance(v, dict):
+                if v.get("k") == "const":
+                    c = v["c"]
+                    from sa.facts import cval
+                    val = cval(c)
+                    if isinstance(val, (bytes, bytearray)):
+                        try:
+                            val = bytes(val).decode("utf-8", "replace")
+                        except Exception:
+                            val = None
+                    if isinstance(val, str):
+                        nconst += 1
+                        m = re.search(r"\\[dDwWsSpPbBAzZhHvVRX]|\[:[a-z]+:\]", val)
+                        if m:
+                            bad.append((m.group(0), b, line))
+                    return
+                for x in v.values():
+                    scan(x, b, line)
+            elif isinstance(v, list):
+                for x in v:
+                    scan(x, b, line)
+        for b in bodies:
+            for _, blk in b.iter_blocks():
+                for st in blk["stmts"]:
+                    scan(st, b, st.get("line"))
+                if blk.get("term"):
+                    scan(blk["term"], b, blk["term"].get("line"))
+        if bad:
+            tok, b, line = bad[0]
+            ctx.violation(rid, (fb.path, "class token " + tok), "the bracket-class printer can emit the token %s: inside [...] it stands for the whole Unicode class "
+                          "(e.g. \\d = all decimal digits of all scripts), so the class accepts characters that are not members of the set" % tok, b.loc(line))
+        else:
+            ctx.ok(rid, fb.path, {"string_constants_scanned": nconst}, fb.loc())
